@@ -41,7 +41,7 @@ ASSUMPTIONS = [
     'a seed of type numpy.random.Generator is in the domain only where documented or where chi itself passes one',
     'side effects on the global generators are not judged (the property speaks about results only)']
 REQUIRED = ['entry:' + e for e in ENTRIES] + ['indep', 'gen', 'other:trunc', 'step:npseed', 'step:pyseed',
-                                               'same_family_outputs']
+                                               'same_family_outputs', 'times:repeated']
 SEEDS = st.integers(0, 2 ** 31 - 2)
 GEN_ENTRIES = ('em', 'pop', 'pred', 'poppred', 'prior', 'post')
 DF_ENTRIES = ('prior', 'post', 'pam')
@@ -85,6 +85,10 @@ def _draw_ll(draw, n_out=None, n_par=None):
 
 def _draw_times(draw):
     t = gen.distinct(draw(gen.vec(gen.logu(0.1, 20.0), draw(st.integers(1, 4)))))
+    if gen.chance(draw, 0.25):
+        # replicate measurements: the same time point requested more than once (its noise terms are independent
+        # like those of any two time points)
+        t = t + [draw(st.sampled_from(t)) for _ in range(draw(st.integers(1, 2)))]
     return list(draw(st.permutations(t)))
 
 
@@ -381,6 +385,8 @@ def _build(spec):
                     e = _std_noise(ll['ems'][o]['kind'], sigs[o], ybar[o][:, np.newaxis], y[o])
                     cols += list(e)
                 return np.array(cols).T
+            meta['array_call'] = lambda seed, n: np.asarray(
+                pm.sample(params.copy(), times.copy(), n_samples=n, seed=seed, return_df=False), dtype=float)
             return call, noise, meta
 
         def grid(n):
@@ -443,6 +449,7 @@ def _build(spec):
                 cols += list(_std_noise(ll['ems'][o]['kind'], sigs[o], ybar[o][:, np.newaxis], y[o]))
             return np.array(cols).T
         meta['cols'] = bool(t['pooled'])
+        meta['array_call'] = lambda seed, n: np.asarray(call(seed, n, False), dtype=float)
         return call, noise, meta
 
     if entry == 'lp':
@@ -592,6 +599,9 @@ def classify(spec):
             labs.append('pop:' + lf['kind'])
     if spec['target'].get('ns', 1) is None:
         labs.append('ns=None')
+    tm = spec['target'].get('times')
+    if spec['entry'] in ('pred', 'poppred', 'prior', 'post', 'pam') and tm and len(set(tm)) < len(tm):
+        labs.append('times:repeated')
     return sorted(set(labs))
 
 
@@ -689,6 +699,20 @@ def check(case):
                             if sa != sb and same(canon(dcall(sa)), canon(dcall(sb))):
                                 case.fail('identical', 'seeds %d and %d (and %d, %d) give identical results' % (
                                     seeds[labs[i]], seeds[labs[j]], sa, sb))
+
+    # ---- replicate measurements: the same time requested twice carries two noise terms --------
+    tm = s['target'].get('times')
+    if meta.get('array_call') is not None and tm and len(set(tm)) < len(tm):
+        with case.clause('replicates:' + entry):
+            ts = np.sort(np.array(tm, dtype=float))
+            y = meta['array_call'](seeds['A'], 4)
+            case.equal(list(y.shape[1:]), [len(ts), 4], 'shape (times, samples) of the array with replicate times')
+            for i in range(len(ts) - 1):
+                if ts[i] == ts[i + 1]:
+                    case.true(not np.array_equal(y[:, i, :], y[:, i + 1, :]),
+                              'time %r is requested twice (positions %d and %d of the sorted times): all outputs and '
+                              'all 4 samples carry identical values %s at both positions, i.e. the same noise term'
+                              % (float(ts[i]), i, i + 1, np.round(y[:, i, :], 6).tolist()), kind='identical')
 
     # ---- a generator object as seed --------------------------------------------------------
     if entry in GEN_ENTRIES:
